@@ -61,3 +61,18 @@ Definition agree_C04 (a b : out) : bool :=
                         (og_bind_entries g) (og_bg_label g) (og_set_index g)) (bg_groups bg))
        (bg_struct_fields bg) (bg_struct_set bg) (bg_fn_params bg) (bg_fn_set bg)) (o_bind_groups b))
   && list_eqb N.eqb (o_pl_groups a) (o_pl_groups b).
+
+(** C08 reads the struct names; C09 names + derives + repr + presence of asserts; C05 the asserts *)
+Definition agree_C08 (a b : out) : bool :=
+  list_eqb String.eqb (map s_name (o_structs a)) (map s_name (o_structs b)).
+Definition agree_C09 (a b : out) : bool :=
+  list_eqb (fun x y => String.eqb (s_name x) (s_name y) && list_eqb String.eqb (s_derives x) (s_derives y)
+                       && Bool.eqb (s_repr_c x) (s_repr_c y)
+                       && Bool.eqb (match s_assert_size x with Some _ => true | None => false end)
+                                   (match s_assert_size y with Some _ => true | None => false end))
+           (o_structs a) (o_structs b).
+Definition agree_C05 (a b : out) : bool :=
+  list_eqb (fun x y => String.eqb (s_name x) (s_name y)
+                       && option_eqb N.eqb (s_assert_size x) (s_assert_size y)
+                       && list_eqb str_n_eqb (s_assert_offsets x) (s_assert_offsets y))
+           (o_structs a) (o_structs b).
